@@ -2,21 +2,37 @@
 import collections
 import os
 import re
+import time
 import vlib
 
 MANIFEST = dict(
     text=("Coq proof, by inductive invariants over EVERY interleaving of an executable small-step model of "
           "parallel.h/.cpp with arbitrary numbers of workers, submitting threads and tasks: at-most-once / exactly-once "
           "on return, exception of the first failing future, worker ids below the pool size and exclusive, no lost "
-          "wake-up, deadlock freedom, clean shutdown, chunk tiling (chunk arithmetic and fast-path tests translated from "
-          "the source on every run). Tie: the implementation, built with the NANO_VERIF hooks and seeded delays at every "
-          "synchronisation point, emits its linearised events; the extracted model must accept every trace and derive "
+          "wake-up, deadlock freedom, clean shutdown, chunk tiling (chunk arithmetic, fast-path tests, the wait predicate / "
+          "exit test of the worker loop and the stop value of ~pool_t translated from the source on every run). "
+          "Extension: (1) a fast acceptor over binary ids / positional lists / tries (C17_Fast_Defs.stepN) proved to be a "
+          "bisimulation-refinement of the proved model (C17_fast_refines, C17_fast_reachable, C17_fast_complete, "
+          "C17_fast_enabled) replays ALL traces (no 400-task cap: up to 5000 elements x 4 submitters x 2 calls), the "
+          "property is re-stated on the fast state (C17_fast_*), and small traces are cross-replayed through the unary "
+          "model; (2) liveness: a non-spurious, measure-decreasing step exists in every non-final reachable state, so "
+          "spurious-free executions under ANY scheduler are finite and end final, at most measure+2k steps with k "
+          "spurious wake-ups, and from every reachable state a bounded schedule reaches a terminal state where every "
+          "map call returned and (destructor in the configuration) all workers exited (C17_terminates_cleanly); "
+          "(3) atomicity tie: commutation of lock-free events of different threads (C17_lockfree_events_commute, "
+          "lock-free events neither read nor write queue/stop/ran), every lock-protected hook event (push, push-all, "
+          "pop, worker-exit, stop) verified as emitted with the queue mutex held BY THE EMITTING THREAD (owner probe + "
+          "try_lock probe, self-tested) and the queue length / stop flag read under that lock compared with the model's "
+          "at that step. Tie: the implementation, built with the NANO_VERIF hooks and seeded delays at every "
+          "synchronisation point, emits its linearised events; the extracted acceptor must accept every trace and derive "
           "the same executions/results; hangs are analysed against the model's enabled set. Thorough adds a "
           "ThreadSanitizer build."),
-    note=("Coq kernel; reduction of each mutex-protected block to one atomic step; std::mutex/condition_variable/"
-          "packaged_task by contract; hook event linearisation by a global atomic counter; translator (10 kernels); "
-          "ocaml/c17_driver.ml event translation; OS fairness and task termination assumed; data-race freedom only "
-          "sampled by TSan."),
+    note=("Coq kernel (+ functional extensionality for the refinement / commutation statements about states with function "
+          "fields); std::mutex/condition_variable/packaged_task by contract (the condition variable's own total order of "
+          "notify/wait is outside the commutation theorem); glibc's mutex owner field (self-tested at start-up, try_lock as "
+          "second probe); hook event linearisation by a global atomic counter; translator (13 kernels); "
+          "ocaml/c17_driver.ml event translation; extraction of MSetPositive; OS fairness only for threads that can move "
+          "(maximality), task termination assumed; data-race freedom only sampled by TSan."),
     technique="Coq inductive invariants over all interleavings of an extracted protocol model + trace acceptance of the instrumented implementation",
     design="DESIGN.md section 2, C17")
 
@@ -35,6 +51,11 @@ def analyse(r, exe, out, rc, tag, drv):
     fails = [l for l in lines if l.startswith("FAIL ")]
     hang = any("HANG" in l for l in done) or rc == 3
     stats = {"scenarios": 0, "events": 0, "fails": len(fails), "accepted": 0, "skipped_large": 0, "mismatches": 0}
+    lk = re.search(r"LOCKED push1=(\d+) pushn=(\d+) pop=(\d+) exit=(\d+) stop=(\d+) lockfree_inside_lock=(\d+) owner_probe=(\d+)", out)
+    if lk:
+        stats["lock_held_verified"] = dict(zip(["push1", "pushn", "pop", "exit", "stop"], map(int, lk.groups()[:5])))
+        stats["lockfree_events_inside_lock"] = int(lk.group(6))
+        stats["owner_probe"] = bool(int(lk.group(7)))
     m = re.search(r"DONE scenarios=(\d+) fails=(\d+)(?: events=(\d+))?", "\n".join(done))
     if m:
         stats["scenarios"] = int(m.group(1))
@@ -61,12 +82,18 @@ def analyse(r, exe, out, rc, tag, drv):
                                      "tail": [l[:600] for l in lines[-60:] if not l.startswith(("EVENTS", "EXEC"))],
                                      "sanitizer": [l for l in lines if "ERROR:" in l or "SUMMARY:" in l or "WARNING: ThreadSanitizer" in l][:10]})
     if drv:
+        t0 = time.time()
         rc2, mout = vlib.sh([drv], input=out, timeout=3000)
+        stats["driver_wall_s"] = round(time.time() - t0, 2)
         mm = [l for l in mout.split("\n") if l.startswith("MISMATCH")]
         ha = [l for l in mout.split("\n") if l.startswith("HANG-ANALYSIS")]
         md = re.search(r"MODEL-DONE checked=(\d+) accepted=(\d+) skipped_large=(\d+) events=(\d+) mismatches=(\d+)", mout)
         if md:
             stats.update(accepted=int(md.group(2)), skipped_large=int(md.group(3)), model_events=int(md.group(4)), mismatches=int(md.group(5)))
+        fs = re.search(r"FAST-STAGE traces=(\d+) model_steps=(\d+) largest_tasks=(\d+) locked_state_checks=(\d+) crossed_with_unary_model=(\d+)", mout)
+        if fs:
+            stats.update(fast_traces=int(fs.group(1)), fast_model_steps=int(fs.group(2)), largest_trace_tasks=int(fs.group(3)),
+                         locked_state_checks=int(fs.group(4)), crossed_with_unary_model=int(fs.group(5)))
         else:
             r.violation(tag + "-driver", {"kind": "model driver failed", "out": mout[-2000:]}, no_input=True)
         for i, l in enumerate(mm[:3]):
@@ -100,10 +127,12 @@ def run(tier, replay=None):
         tsan, _ = analyse(r, texe, out3, rc3, "tsan", drv)
     vlib.handle_coq_failure(r, cres)
     vlib.proof_coverage(r, cres, "make -C coq theories/Properties_C17.vo && coqc theories/Properties_C17.v (Print Assumptions)",
-                        ["tools/translate.py (chunk bounds and fast-path tests of pool_t::map)",
-                         "extraction: ExtrOcamlBasic only", "ocaml/c17_driver.ml (event translation, unobservable steps)",
-                         "harness/c17_pool.cpp + NANO_VERIF hooks in parallel.h/.cpp (add-only)",
-                         "atomicity reduction of mutex-protected blocks; contracts of std::mutex/condition_variable/packaged_task"])
+                        ["tools/translate.py (chunk bounds and fast-path tests of pool_t::map; wait predicate, exit test, stop value of parallel.cpp)",
+                         "extraction: ExtrOcamlBasic only (incl. MSetPositive tries)", "ocaml/c17_driver.ml (event translation, unobservable steps)",
+                         "harness/c17_pool.cpp + NANO_VERIF hooks in parallel.h/.cpp (add-only); glibc mutex owner field (self-tested) and try_lock probe",
+                         "atomicity reduction of mutex-protected blocks (lock held by the emitter verified for every lock-protected event; lock-free "
+                         "events commute: theorem); contracts of std::mutex/condition_variable/packaged_task",
+                         "FunctionalExtensionality (refinement / commutation statements over states with function fields)"])
     cov = r.coverage
     kinds = collections.Counter()
     shapes = collections.Counter()
@@ -119,7 +148,8 @@ def run(tier, replay=None):
     cov["rule"] = ("random scenarios: pool size 1..16, 1..4 submitting threads x 1..4 calls (map / chunked map / enqueue), "
                    "0..5000 elements, chunk sizes 1..elements+1, throwing tasks, seeded yields/sleeps at 6 schedule points, "
                    "destruction with queued tasks; non-trivial = distinct event trace with more than a handful of events; "
-                   "traces with more than 400 tasks are checked by the direct oracles only (skipped_large)")
+                   "ALL traces are replayed through the fast acceptor stepN (proved refinement of the model); traces with at most "
+                   "400 tasks are additionally cross-replayed through the unary model (crossed_with_unary_model)")
     cov["event_histogram"] = dict(kinds)
     cov["pool_shapes"] = dict(shapes.most_common(12))
     cov["run_stats"] = stats
@@ -127,8 +157,12 @@ def run(tier, replay=None):
     smp = [l[:300] for l in lines if l.startswith(("SCENARIO 3 ", "PROG", "EVENTS"))][:6]
     cov["samples"] = smp or ["(no scenario output)"]
     cov["unproved_clauses_searched"] = ["data-race freedom of the C++ memory accesses (ThreadSanitizer, thorough tier, sampled schedules)",
-                                        "termination of executions (deadlock freedom is proved; fairness of the OS scheduler assumed)"]
-    r.assumptions = ["each block under m_mutex is one atomic step; wait(lock, pred) releases and sleeps atomically",
+                                        "that a thread which can move eventually moves (OS scheduler); termination itself is a theorem of the model "
+                                        "(C17_maximal_runs_end_final / C17_terminates_cleanly), hangs of the implementation are searched with the watchdog",
+                                        "the order of notify / wait inside the condition variable (its own total order, by contract): sleeping and "
+                                        "wake-ups are not observable through the hooks"]
+    r.assumptions = ["each block under m_mutex is one atomic step (checked per lock-protected event: mutex held by the emitting thread, queue "
+                     "length and stop flag under the lock equal the model's); wait(lock, pred) releases and sleeps atomically",
                      "notify_one wakes a sleeping worker if there is one; spurious wake-ups allowed",
                      "the pool outlives its users (the destructor runs after the other threads finished their calls)",
                      "user tasks terminate"]
